@@ -2,8 +2,8 @@
 from ..main import k_suite, Violation, parse_mismatch
 from .. import ksuites
 
-LEAN_MODULES = ["Shm.Props.C09"]
-GEN_TABLES = ["Access.lean", "AttrUpdate.lean", "ClassTable.lean"]
+LEAN_MODULES = ["Shm.Props.C09", "Shm.Props.FactsC09"]
+GEN_TABLES = ["EntryFacts.lean", "Access.lean", "AttrUpdate.lean", "ClassTable.lean"]
 LEVEL = "proof"
 RULE = ("K09: seeded histories over objects of all 25 classes of the generated class table; about 30% of the creating calls carry one injected "
         "defect (unknown / foreign / forbidden / wrongly sized / missing mandatory / inconsistent attribute, too many attributes), C_SetAttributeValue "
